@@ -3,6 +3,7 @@ package rules
 import (
 	"fmt"
 	"go/token"
+	"go/types"
 	"strings"
 
 	"golang.org/x/tools/go/ssa"
@@ -301,8 +302,19 @@ func runC19(c *eng.Ctx) {
 		if inner != nil {
 			for bb := range inner.Body {
 				for _, in := range bb.Instrs {
-					if phi, ok := in.(*ssa.Phi); ok && phi.Comment == "rangeindex" {
-						looped++
+					// the loop's bound is the length of a table entry — `for _, p := range
+					// table[w]` and `for i := 0; i < len(table[w]); i++` both compare an
+					// index against len(<map lookup>)
+					b, ok := in.(*ssa.BinOp)
+					if !ok || b.Op != token.LSS {
+						continue
+					}
+					if ln, ok := eng.Unwrap(b.Y).(*ssa.Call); ok && eng.CalleeName(ln) == "builtin:len" {
+						if lk, ok := eng.Unwrap(ln.Call.Args[0]).(*ssa.Lookup); ok {
+							if _, isMap := lk.X.Type().Underlying().(*types.Map); isMap {
+								looped++
+							}
+						}
 					}
 				}
 			}
